@@ -36,13 +36,6 @@ OUTSIDE = "ill-framed headers; headers arriving without credit; more than 5 head
           "beyond the bound (safety: counts and numbers; reachability by cover twins)"
 
 
-def d1_rst_src(m, reset):
-    """usb_reset (with the link up) one cycle ago"""
-    r = Signal(name="kf_rst_d1")
-    m.d.ss += r.eq(reset)
-    return r
-
-
 class HeaderRxHarness(Harness):
     domains = ("ss",)
 
@@ -73,7 +66,7 @@ class HeaderRxHarness(Harness):
         cn = ["delivered_k1", "lgood_ack", "lbad_sent", "lcrd_after_free", "ignored_then_accepted", "adv_done",
               "four_credits", "wrong_seq_dropped"]
         if free_enable:
-            cn += ["readv_after_disable", "readv_after_reset", "disable_mid_lgood", "disable_mid_lcrd",
+            cn += ["accept_after_ignoring_reentry", "readv_after_disable", "readv_after_reset", "disable_mid_lgood", "disable_mid_lcrd",
                    "disable_mid_lbad", "disable_mid_lrty", "disable_mid_keepalive"]
         self.c = {n: self.cover(n) for n in cn}
         self.a_credit = self.assume("credit")
@@ -81,10 +74,6 @@ class HeaderRxHarness(Harness):
         if free_enable:
             self.a_quiet = self.assume("quiet_while_down")
             self.a_idle_up = self.assume("idle_at_reenable")
-            # scenario predicates of the recorded C38 findings (known_findings.json)
-            self.kf_cmd = self.kf("reset_during_command")
-            self.kf_disp = self.kf("reset_at_dispatch")
-            self.kf_owed = self.kf("lgood_owed_at_link_down")
 
     def elaborate(self, platform):
         m = Module()
@@ -271,41 +260,6 @@ class HeaderRxHarness(Harness):
                 self.a_quiet.eq(~(span | src.ev_hpstart) | (enable & last_en & ~reset)),
                 self.a_idle_up.eq(~up_ev | (~dut.source.valid & ~second)),
             ]
-            # ---- scenario predicates (sticky until the next USB reset, which is classified itself):
-            # reset_during_command: the latest down/reset event fell into a cycle in which a link command was on the
-            #   wire or was started in the next cycle (the DUT's command FSM was not in DISPATCH_COMMAND);
-            # reset_at_dispatch: the latest usb_reset (link up) came exactly two cycles before a new command's LCSTART
-            #   was first offered (the FSM dispatched from the state it was discarding in that very cycle)
-            d1 = Signal(name="kf_d1")
-            d2 = Signal(name="kf_d2")
-            d2_rst = Signal(name="kf_d2_rst")
-            v1 = Signal(name="kf_v1")
-            v2 = Signal(name="kf_v2")
-            lost = Signal(name="kf_lost")
-            disp = Signal(name="kf_disp_r")
-            vnow = dut.source.valid
-            m.d.ss += [d1.eq(down_ev), d2.eq(d1), d2_rst.eq(d1 & d1_rst_src(m, reset)), v1.eq(vnow), v2.eq(v1)]
-            set_lost = Signal(name="kf_set_lost")
-            set_disp = Signal(name="kf_set_disp")
-            m.d.comb += [set_lost.eq(d1 & (v1 | vnow)), set_disp.eq(d2_rst & ~v2 & ~v1 & vnow)]
-            # (a plain link-down does not restore the sequence numbers, so the effects of a mishandled event last
-            #  until the next USB reset; that reset is then classified itself)
-            with m.If(down_ev & reset):
-                m.d.ss += [lost.eq(0), disp.eq(0)]
-            with m.Else():
-                with m.If(set_lost):
-                    m.d.ss += lost.eq(1)
-                with m.If(set_disp):
-                    m.d.ss += disp.eq(1)
-            m.d.comb += [self.kf_cmd.eq(lost | set_lost), self.kf_disp.eq(disp | set_disp)]
-            # lgood_owed_at_link_down: at the latest link-down (not a USB reset) an LGOOD -- the advertisement or an
-            #   acknowledgement -- had not been sent yet (the DUT then advertises next_header_to_ack - 1, which is
-            #   not the last received sequence number)
-            owed = Signal(name="kf_owed_r")
-            with m.If(down_ev):
-                m.d.ss += owed.eq(~reset & (owed | adv_pending | (n_lgood != n_acc)))
-            m.d.comb += self.kf_owed.eq(owed)
-
             # what was being sent when the link went down (cover twins for the crash points)
             busy = dut.source.valid
             was_down = Signal(name="was_down")
@@ -320,6 +274,14 @@ class HeaderRxHarness(Harness):
                             ("lrty", ss_link.LRTY), ("keepalive", ss_link.LUP)):
                 with m.If(down_in_second & (cur_cmd == code)):
                     m.d.ss += mid[n].eq(1)
+            # the link went down (no USB reset) while the receiver was ignoring headers after a corrupted one: the
+            # ignore-until-retry state must not survive the re-entry
+            down_ignoring = Signal(name="down_ignoring")
+            with m.If(down_ev & ~reset & g_ign):
+                m.d.ss += down_ignoring.eq(1)
+            with m.Elif(reset):
+                m.d.ss += down_ignoring.eq(0)
+            m.d.comb += self.c["accept_after_ignoring_reentry"].eq(del_ev & down_ignoring & (n_del == 0))
             readv = Signal(name="readv")
             m.d.comb += readv.eq(is_lcrd & (sub == 3) & ~adv_pending)
             with m.If(down_ev & ~reset):
